@@ -5,6 +5,8 @@ from concurrent.futures import ThreadPoolExecutor
 from . import core
 
 RE_BAD = re.compile(r'^<<"BAD", (\d+), "([^"]+)">>', re.M)
+RE_NOTE = re.compile(r'^<<"NOTE", (\d+), "([^"]+)">>', re.M)
+NOTES = {}        # trace path -> [(index0, note)]
 RE_DIFF = re.compile(r'^<<"DIFF", (\d+), (.*)>>$', re.M)
 
 
@@ -17,8 +19,17 @@ def run_sessions(sessions, name, env=None, timeout=900):
         for s in sessions:
             f.write(json.dumps(s, separators=(",", ":")) + "\n")
     out = os.path.join(wd, "trace.ndjson")
-    core.conform(["session", "--in", inp, "--out", out], env=env, timeout=timeout)
+    p = core.conform(["session", "--in", inp, "--out", out], env=env, timeout=timeout)
+    try:
+        info = json.loads(p.stdout.strip().splitlines()[-1])
+        for k in ("plans_single", "plans_decomposed", "truncated"):
+            STATS[k] = STATS.get(k, 0) + info.get(k, 0)
+    except Exception:
+        pass
     return out
+
+
+STATS = {}      # totals reported by the harness over all runs of this check
 
 
 def validate(trace, module="EggAbs_Trace", timeout=1500):
@@ -32,6 +43,7 @@ def validate(trace, module="EggAbs_Trace", timeout=1500):
         raise core.ToolError("trace module %s did not consume the trace %s (%d of %d events): %s"
                              % (module, trace, consumed, len(events), tail[:1500]))
     bads = [(int(m.group(1)) - 1, m.group(2)) for m in RE_BAD.finditer(res.out)]
+    NOTES[os.path.abspath(trace)] = [(int(m.group(1)) - 1, m.group(2)) for m in RE_NOTE.finditer(res.out)]
     diffs = {int(m.group(1)) - 1: m.group(2) for m in RE_DIFF.finditer(res.out)}
     return events, bads, diffs, res
 
@@ -55,6 +67,11 @@ def split_validate(trace, name, chunks=8, module="EggAbs_Trace", timeout=1500):
     def work(part):
         lo, path = part
         ev, bads, diffs, res = validate(path, module=module, timeout=timeout)
+        for i, n in NOTES.get(os.path.abspath(path), []):
+            for k in range(lo + i, lo + len(ev)):
+                if k > lo + i and events[k]["e"] == "decl":
+                    break
+                events[k].setdefault("_notes", set()).add(n)
         return [(lo + i, c) for i, c in bads], {lo + i: d for i, d in diffs.items()}
     bads, diffs = [], {}
     with ThreadPoolExecutor(max_workers=chunks) as ex:
@@ -118,6 +135,8 @@ def run_family(name, sessions, configs, chunks=8, module="EggAbs_Trace", timeout
         for s in sessions:
             s2 = dict(s)
             s2["mode"] = mode
+            if mode.get("enc", "plain") != "plain":
+                s2["cmp"] = 0          # the engine's tables are the encoding's: outcomes, sizes and costs are compared, not rows
             s2["id"] = "%s@%s" % (s["id"], tag)
             ss.append(s2)
         tr = run_sessions(ss, "%s_%d" % (name, ci), env=env)
@@ -156,6 +175,8 @@ def report(V, fam, results, sessions_by_id=None, maxreports=40):
                 kind = "after-clone" if any(e["e"] == "clone" for e in cmds) else "single-egraph"
             afterfail = any(e.get("res") in ("err", "panic") and e.get("c", {}).get("k") not in ("check", "bad") for e in cmds[:-1])
             key = "%s:%s:%s:%s%s" % (fam, code, kind, tag, ":afterfail" if afterfail else "")
+            if "subsume-created-the-row" in ev.get("_notes", ()) and decl.get("mode", {}).get("enc", "plain") != "plain":
+                key += ":after-subsume-of-absent-row"
             n += 1
             if n > maxreports:
                 continue
